@@ -164,14 +164,18 @@ type c06inst struct {
 }
 
 type c06run struct {
-	c       *core.Ctx
-	ref     *c06ref
-	cur     c06inst
-	shadows []c06inst // clones left behind: must stay untouched and keep working
-	hist    []c06op
-	digest  *bytes.Buffer // outputs, for the cross-build comparison
-	failed  bool
+	c        *core.Ctx
+	ref      *c06ref
+	cur      c06inst
+	shadows  []c06inst // clones left behind: must stay untouched and keep working
+	hist     []c06op
+	digest   *bytes.Buffer // outputs, for the cross-build comparison
+	failed   bool
+	dstArena trinary.Trits
+	kept     []c06kept
 }
+
+type c06kept struct{ now, was trinary.Trits }
 
 func (r *c06run) violate(class, what string) {
 	r.failed = true
@@ -282,9 +286,32 @@ func (r *c06run) apply(op c06op) {
 			in.model.absorbed++
 		}
 	case "squeeze":
+		// the caller's destination: entries are left-overs of earlier calls - consecutive windows of one arena (each
+		// with capacity reaching over its neighbours), as a caller that recycles its output slices would pass them
+		if r.dstArena == nil {
+			r.dstArena = make(trinary.Trits, 64*243)
+		}
 		dst := make([]trinary.Trits, op.Batch)
+		if len(r.hist)%2 == 0 {
+			for j := range dst {
+				dst[j] = r.dstArena[j*243 : (j+1)*243]
+			}
+		}
+		kept := r.kept
 		var err error
 		p := core.Catch(func() { err = in.real.Squeeze(dst, 243*op.N) })
+		for _, k := range kept { // results of earlier squeezes that the caller still holds must not have changed
+			if !bytes.Equal(int8bytes(k.now), int8bytes(k.was)) {
+				r.violate("squeeze/overwrites-earlier-result", "a later Squeeze changed the trits returned by an earlier one")
+				return
+			}
+		}
+		r.kept = nil
+		for j := range dst {
+			if len(dst[j]) > 0 {
+				r.kept = append(r.kept, c06kept{dst[j], append(trinary.Trits{}, dst[j]...)})
+			}
+		}
 		if p != nil || err != nil {
 			r.violate("squeeze/refused", fmt.Sprintf("valid Squeeze refused: %v %v", p, err))
 			return
